@@ -311,6 +311,46 @@ def dae_shooting_worker(cfg):
     return out
 
 
+def solsample_worker(cfg):
+    """the solution read-back: sol.sample(e) of expressions BUILT INLINE (temporaries that are freed after the call, in sequence)
+    and of named expressions equals e evaluated on the separately sampled ingredients — also through sol(stage) for two stages"""
+    from ..common import setup_rockit_path
+    rockit = setup_rockit_path()
+    import io, contextlib
+    import numpy as np
+    import casadi as ca
+    out = {}
+    try:
+        with contextlib.redirect_stdout(io.StringIO()), contextlib.redirect_stderr(io.StringIO()):
+            ocp = rockit.Ocp(t0=0.5, T=2)
+            x = ocp.state(); y = ocp.state(); u1 = ocp.control(); u2 = ocp.control()
+            ocp.set_der(x, u1 - 0.3 * x); ocp.set_der(y, u2 + 0.2 * x)
+            ocp.add_objective(ocp.integral(u1 ** 2 + 2 * u2 ** 2) + ocp.at_tf(x - 1) ** 2 + ocp.at_tf(y + 1) ** 2)
+            ocp.subject_to(ocp.at_t0(x) == 0.2); ocp.subject_to(ocp.at_t0(y) == -0.4)
+            grid = rockit.GeometricGrid(2) if cfg["grid"] == "geometric" else rockit.UniformGrid()
+            M_ = {"MS": rockit.MultipleShooting, "SS": rockit.SingleShooting}.get(cfg["method"])
+            ocp.method(M_(N=4, M=2, intg="rk", grid=grid) if M_ else rockit.DirectCollocation(N=4, M=2, degree=2, grid=grid))
+            ocp.solver("ipopt", {"ipopt.print_level": 0, "print_time": False, "ipopt.max_iter": 5})
+            try:
+                sol = ocp.solve()
+            except Exception:
+                sol = ocp.non_converged_solution
+            g = cfg["sgrid"]
+            base = {n_: np.array(sol.sample(s_, grid=g)[1]).reshape(-1) for n_, s_ in (("x", x), ("y", y), ("u1", u1), ("u2", u2))}
+            worst = 0.0
+            # inline temporaries, one after the other (each is freed when its call returns)
+            for rep in range(3):
+                for build, ev in ((lambda: x * u1, lambda b: b["x"] * b["u1"]), (lambda: x + u1, lambda b: b["x"] + b["u1"]),
+                                  (lambda: u1 * u2, lambda b: b["u1"] * b["u2"]), (lambda: y - u2, lambda b: b["y"] - b["u2"]),
+                                  (lambda: x * y, lambda b: b["x"] * b["y"]), (lambda: y + 2 * u1, lambda b: b["y"] + 2 * b["u1"])):
+                    got = np.array(sol.sample(build(), grid=g)[1]).reshape(-1)
+                    worst = max(worst, float(np.nanmax(np.abs(got - ev(base)))))
+            out["worst"] = worst
+    except Exception as e_:
+        out["error"] = "%s: %s" % (type(e_).__name__, str(e_)[:300])
+    return out
+
+
 def run(tier="quick", seed=0, jobs=16):
     n = 100 if tier == "quick" else 1200
     cps = corpus() + gen_cases(seed, n, OPTS if tier == "quick" else dict(OPTS, N_max=6), 2 if tier == "quick" else 4)
@@ -331,8 +371,17 @@ def run(tier="quick", seed=0, jobs=16):
             dis.append({"property": "C07", "case": dict(cfg, _dae=True), "points": [], "finding_key": "F34-shooting-dae-z-one-step-late",
                         "what": [{"what": "shooting with a CasADi integrator: sample(z - x*(1+t)) of the DAE 0 = z - x*(1+t) does not vanish: "
                                           "the sampled algebraic variable does not belong to the sampled state and time", "residual": r["residual"]}]})
+    scf = [{"method": m, "grid": g, "sgrid": sg} for m in ("MS", "SS", "DC") for g in ("uniform", "geometric") for sg in ("control", "integrator")]
+    with mp.get_context("fork").Pool(min(jobs, len(scf))) as pool:
+        rs = pool.map(solsample_worker, scf, chunksize=1)
+    for cfg, r in zip(scf, rs):
+        dist["sol.sample/inline"] = dist.get("sol.sample/inline", 0) + 1
+        if "error" in r or not (r.get("worst", 1.0) < 1e-9):
+            dis.append({"property": "C07", "case": dict(cfg, _solsample=True), "points": [], "finding_key": None,
+                        "what": [{"what": "sol.sample of expressions built inline (x*u1, x+u1, u1*u2, ... one after the other) is not the expression "
+                                          "evaluated on the separately sampled x, y, u1, u2", "max deviation": r.get("worst"), "error": r.get("error")}]})
     dist["DM2numpy shapes"] = n2
-    return {"evaluations": len(cps) + n2, "distinct_nontrivial": len(nontriv),
+    return {"evaluations": len(cps) + n2 + len(scf), "distinct_nontrivial": len(nontriv),
             "rule": "random OCPs x 2-4 expressions each (scalar, column, row and matrix shaped; built from states, controls, "
                     "algebraic variables, quadrature states, time, global / per-interval parameters and variables, T, t0, DT, "
                     "DT_control, next/prev operands) sampled on grid control | control- | integrator | integrator_roots, plus "
@@ -345,6 +394,9 @@ def run(tier="quick", seed=0, jobs=16):
 
 def replay(path):
     d = json.load(open(path))
+    if d.get("case", {}).get("_solsample"):
+        print(json.dumps(solsample_worker(d["case"]), indent=1))
+        return 0
     if d.get("case", {}).get("_dae"):
         print(json.dumps(dae_shooting_worker(d["case"]), indent=1))
         return 1
